@@ -404,6 +404,39 @@ func rulesC14(w *World, o *Out) {
 		}
 	}
 
+	// pending valset updates: every UpdateValset message still in the queue blocks younger messages,
+	// whatever its processing state
+	if gp := w.MustFunc(o, "x/consensus/keeper", "Keeper", "GetPendingValsetUpdates"); gp != nil {
+		o.Analysed(w.FuncKey(gp))
+		nRet := 0
+		for _, g := range gp.AnonFuncs {
+			for _, r := range Returns(g) {
+				if len(r.Ret.Results) != 1 {
+					continue
+				}
+				isUV := false
+				for _, fa := range FactsAt(r.Ret) {
+					if fa.Kind != FTrue {
+						continue
+					}
+					if ex, ok := canon(fa.V).(*ssa.Extract); ok {
+						if ta, ok := ex.Tuple.(*ssa.TypeAssert); ok && strings.HasSuffix(types.TypeString(ta.AssertedType, nil), ".Message_UpdateValset") {
+							isUV = true
+						}
+					}
+				}
+				if !isUV {
+					continue
+				}
+				nRet++
+				bv, isConst := boolConst(canon(r.Ret.Results[0]))
+				o.Check("C14.R3", "GetPendingValsetUpdates|every queued UpdateValset message counts as pending", isConst && bv, w.Pos(r.Ret.Pos()),
+					"a valset update that was relayed (or errored) but is still awaiting attestation must keep blocking younger messages of its chain; the selection must not depend on anything but the action type")
+			}
+		}
+		o.Count("C14.R3 returns for UpdateValset messages in GetPendingValsetUpdates", nRet, 1)
+	}
+
 	// ---- R4 ----
 	if cf := w.MustFunc(o, "x/consensus/keeper", "Keeper", "calculateFeesForEstimate"); cf != nil {
 		o.Analysed(w.FuncKey(cf))
@@ -462,6 +495,21 @@ func rulesC14(w *World, o *Out) {
 							}
 						}
 					}
+				}
+				if fs.base != "estimate" {
+					// ... and it is the relayer fee as stored (already rounded up), not the raw product
+					fromStored := false
+					for c := range calls {
+						if cal, ok := CalleeOf(c.Common()); ok && cal.Pkg == "cosmossdk.io/math" && strings.HasPrefix(cal.Name, "NewInt") && len(c.Call.Args) == 1 {
+							if nm, base := loadedField(c.Call.Args[0]); nm == "RelayerFee" && base != nil {
+								if nt := namedOf(derefType(base.Type())); nt != nil && nt.Obj().Name() == "Fees" {
+									fromStored = true
+								}
+							}
+						}
+					}
+					o.Check("C14.R4", "calculateFeesForEstimate|"+fs.field+" is computed from the relayer fee as charged", fromStored, w.Pos(st.Pos()),
+						"community and security fees are a rate of the relayer fee the message carries (rounded up to a whole unit); computing them from the unrounded product gives ceil(rate·m·g) instead of ceil(rate·ceil(m·g))")
 				}
 				o.Check("C14.R4", "calculateFeesForEstimate|"+fs.field+" = ceil(multiplier × base)", ceil && trunc && mul && order && okM && okB, w.Pos(st.Pos()),
 					"fee must be Ceil() of the multiplier times its base before truncation; influence="+strings.Join(aps.Strings(), ","))
